@@ -7,7 +7,7 @@ ID = "C13"
 FAMILY = "message"
 RULE = ("mode 4: encode_signed then decode_signed with the same key; mode 3: a validly signed message with one "
         "mutation (each class: single-bit flip in body or tag, truncation, extension by 1..64 bytes, 32-byte block "
-        "swap, different key, none) is given to the real decode_signed and the extracted model; the oracle recomputes "
+        "swap, different key, several tag bytes changed so that the differences cancel under + or xor, an exact MAC over a body cut by 1..32 bytes or with a length field inflated by 1..32, none) is given to the real decode_signed and the extracted model; the oracle recomputes "
         "HMAC-SHA256 independently (python hashlib); non-trivial = buffer of at least 34 bytes; distinct = distinct "
         "(mutation class, implementation output)")
 ASSUMPTIONS = ["HMAC unforgeability is a hypothesis of c13_body_tamper, not a theorem"]
@@ -25,9 +25,38 @@ def generate(rng, tier):
             continue
         wire = G.py_encode(m)
         s = wire + G.py_hmac(key, wire)
-        r = rng.randrange(8)
+        r = rng.randrange(11)
         vkey = key
-        if r == 0:
+        if r == 8:
+            # several tag bytes changed at once so that the byte differences cancel under +, xor (an accumulating
+            # comparison other than OR-of-XOR would accept these)
+            k = rng.choice([2, 2, 3, 4, 8, 32])
+            idx = rng.sample(range(32), k)
+            style = rng.randrange(4)
+            if style == 0:
+                diffs = [0x80] * 2 + [0] * (k - 2)
+            elif style == 1:
+                d0 = rng.randrange(1, 256); diffs = [d0, 256 - d0] + [0] * (k - 2)
+            elif style == 2:
+                d0 = rng.randrange(1, 256); diffs = [d0, d0] + [0] * (k - 2)
+            else:
+                diffs = [rng.randrange(1, 256) for _ in range(k - 1)]
+                diffs.append((-sum(diffs)) % 256 or 256 // 2)
+            for j, d in zip(idx, diffs):
+                s[len(wire) + j] ^= d & 255
+            tag = "tag-multi"
+        elif r == 9:
+            # the key holder signs a body that is 1..32 bytes too short to decode: the MAC is exact, the body is not a message
+            cut = rng.randrange(1, 33)
+            w2 = wire[:max(0, len(wire) - cut)]
+            s = w2 + G.py_hmac(key, w2); tag = "signed-short-body"
+        elif r == 10:
+            # exact MAC over a body whose length field claims up to 32 bytes more than the body holds
+            w2 = list(wire)
+            if len(w2) > 40:
+                j = rng.randrange(2, min(len(w2), 80)); w2[j] = (w2[j] + rng.randrange(1, 33)) & 255
+            s = w2 + G.py_hmac(key, w2); tag = "signed-overlong-field"
+        elif r == 0:
             tag = "intact"
         elif r == 1:
             i0 = rng.randrange(len(wire)); s[i0] ^= 1 << rng.randrange(8); tag = "flip-body"
@@ -76,6 +105,10 @@ def judge(case, impl, model):
         return {"fail": "C13|accepted-without-exact-mac", "nontrivial": True}
     if (not accepted) and good and model and model[0] == 1:
         return {"fail": "C13|rejected-exact-mac", "nontrivial": True}
+    if accepted and good and model and model[0] == 0:
+        # exact MAC, but the authenticated bytes are not a message (decodability as decided by the model, whose decoder is
+        # tied to the real one by C15/C16): fields can then only have come from outside the authenticated bytes
+        return {"fail": "C13|accepted-undecodable-body", "nontrivial": True}
     return {"nontrivial": len(buf) >= 34}
 
 
